@@ -54,18 +54,38 @@ Lemma read_int_exact base ds :
   nl_read_int base ds = digits_value base 0 ds.
 Proof. intros H. rewrite read_int_wrap. apply bn_wrap_id. exact H. Qed.
 
-(* full statement: the reader yields the mathematical value of every digit string - false: values
-   from 2^(BN_BITS-1) on wrap around silently *)
-Definition reader_exact : Prop :=
-  forall base ds, nl_read_int base ds = digits_value base 0 ds.
+(* decimal literals (after 96cb9da): an integer is produced only when it is the exact value; everything the
+   big numbers cannot hold is handed to the float reader *)
+Lemma read_dec_exact ds v : nl_read_dec ds = Some v -> v = digits_value 10 0 ds.
+Proof.
+  unfold nl_read_dec. destruct (Z.eqb_spec (nl_read_int 10 ds) (digits_value 10 0 ds)); [|discriminate].
+  intros [= <-]. assumption.
+Qed.
 
-(* 1461501637330902918203684832716283019655932542976 = 2^160 reads as 0 *)
+Lemma read_dec_complete ds :
+  - 2 ^ (BN_BITS - 1) <= digits_value 10 0 ds < 2 ^ (BN_BITS - 1) -> nl_read_dec ds = Some (digits_value 10 0 ds).
+Proof.
+  intros H. unfold nl_read_dec. rewrite read_int_exact by exact H. rewrite Z.eqb_refl. reflexivity.
+Qed.
+
+Lemma read_dec_float ds : 2 ^ (BN_BITS - 1) <= digits_value 10 0 ds -> nl_read_dec ds = None.
+Proof.
+  intros H. unfold nl_read_dec. rewrite read_int_wrap.
+  destruct (Z.eqb_spec (bn_wrap (digits_value 10 0 ds)) (digits_value 10 0 ds)) as [E|]; [|reflexivity].
+  exfalso. revert E H. unfold bn_wrap. bn_consts. lia.
+Qed.
+
+(* 2^160 in decimal is now read as a float, not as 0 *)
 Definition two160_digits : list Z :=
   [1;4;6;1;5;0;1;6;3;7;3;3;0;9;0;2;9;1;8;2;0;3;6;8;4;8;3;2;7;1;6;2;8;3;0;1;9;6;5;5;9;3;2;5;4;2;9;7;6].
+Example read_dec_two160 : nl_read_dec two160_digits = None.
+Proof. vm_compute. reflexivity. Qed.
 
-Lemma reader_exact_refuted : ~ reader_exact.
+(* hexadecimal / binary integer spellings: modulo 2^64 the reader agrees with Lua's reader (which wraps
+   these spellings modulo 2^64) for every digit string, however long *)
+Lemma read_int_eq_lua_mod64 base ds : wrap64 (nl_read_int base ds) = wrap64 (digits_value base 0 ds).
 Proof.
-  intros H. specialize (H 10 two160_digits). vm_compute in H. discriminate.
+  rewrite read_int_wrap. apply wrap64_eqm. unfold bn_wrap, two64. bn_consts. lia.
 Qed.
 
 (* two's complement facts used by the typing/emission theorems *)
